@@ -334,7 +334,7 @@ def ordering(ctx, report, m, f):
         import closures
         from kernel import E, closure_of
         for b, t in f.calls():
-            if b.idx not in m.loop_body or t.callee is None or t.callee.name not in ("map_or", "is_none_or") or "Option" not in (t.callee.fn or ""):
+            if b.idx not in m.loop_body or t.callee is None or t.callee.name not in ("map_or", "is_none_or", "is_some_and") or "Option" not in (t.callee.fn or ""):
                 continue
             args = [an.operand_expr(a, b.idx, len(b.stmts)) for a in t.args]
             if t.callee.name == "map_or":
